@@ -59,7 +59,7 @@ def _must_reject(run, module, cfg, traces, want_prefix, what):
 
 
 def _hkey(ev):
-    return ("summary", ev["arg"]) if ev["op"] == "summary" else (ev["est"], ev["arg"])
+    return ("summary", ev["arg"], ev.get("sarg", "-")) if ev["op"] == "summary" else (ev["est"], ev["arg"])
 
 
 def _patterns(hist):
@@ -85,6 +85,9 @@ def _patterns(hist):
         out.add("summary_after_bootstrap")
         if sum(e["op"] == "summary" for e in ev) >= 2:
             out.add("summary_twice")
+            sargs = [e.get("sarg") for e in ev if e["op"] == "summary"]
+            if len(set(sargs)) >= 2:
+                out.add("summary_with_other_weights_on_the_same_run")
         for i in range(n - 1):
             if ev[i]["op"] == "summary" and ev[i + 1]["op"] == "est":
                 out.add("estimates_after_summary")
@@ -118,6 +121,13 @@ def _choose_histories(hists, n, rnd, patterns=None):
                     chosen.append(h)
                     have.add(h["id"])
                     break
+    if patterns is None:
+        # every history with two national summaries (8: run arguments x first weights x second weights): a summary must not
+        # depend on the summaries asked for before it on the same run (seeded change C12_D)
+        for h in hists:
+            if "summary_twice" in h["patterns"] and h["id"] not in have:
+                chosen.append(h)
+                have.add(h["id"])
     for h in hists:
         if len(chosen) >= n:
             break
@@ -160,6 +170,8 @@ def c12(tier, seed):
     common.mc(run, "MC_ClientHistory", "MC_ClientHistory_quick.cfg" if quick else "MC_ClientHistory_thorough.cfg", workers=8, timeout=900)
     common.mc(run, "MC_ClientHistory", "MC_ClientHistory_demo_F2.cfg", expect_violation="Functional", workers=2, timeout=300,
               name="F2 demo (boot_sigma reads process entropy: Functional violated after two equal gaussian calls)")
+    common.mc(run, "MC_ClientHistory", "MC_ClientHistory_demo_summary.cfg", expect_violation="Functional", workers=4, timeout=300,
+              name="design mutant demo: the weight-dependent part of the national summary kept on the model object")
     if not quick:
         for d in ("split", "boot", "reuse", "defaults", "setorder"):
             common.mc(run, "MC_ClientHistory", f"MC_ClientHistory_demo_{d}.cfg", expect_violation="Functional", workers=2, timeout=300,
@@ -315,7 +327,7 @@ def c12(tier, seed):
         require_witnesses=[
             "repeat_same_client", "repeat_fresh_client", "a_b_a", "default_args_before_and_after_own_lists", "other_estimator_in_between",
             "same_estimator_other_args_in_between_same_client", "summary_after_bootstrap", "estimates_after_summary",
-            "default_args_of_two_estimators_in_one_process", "string_hashes_differ_between_legs", "same_arguments_under_4_or_more_hash_seed_legs", "digest_distinguishes_argument_tuples",
+            "summary_with_other_weights_on_the_same_run", "default_args_of_two_estimators_in_one_process", "string_hashes_differ_between_legs", "same_arguments_under_4_or_more_hash_seed_legs", "digest_distinguishes_argument_tuples",
             "corrupted_trace_rejected",
         ]
     )
